@@ -253,8 +253,8 @@ async def copy_same_connector(
                     location=location,
                     command=(["ln", "-snf"] if read_only else ["/bin/cp", "-rf"])
                     + [
-                        src,
-                        dst,
+                        shlex.quote(src),
+                        shlex.quote(dst),
                     ],
                 )
                 if logger.isEnabledFor(logging.INFO):
@@ -518,9 +518,7 @@ class BaseConnector(Connector, FutureAware, ABC):
         if job_name is None and stdin is None:
             with contextlib.suppress(WorkflowExecutionException):
                 return await utils.run_in_shell(
-                    shell=await self.get_shell(
-                        command=["sh"], location=location
-                    ),  # nosec
+                    shell=await self.get_shell(command=["sh"], location=location),  # nosec
                     location=location,
                     command=command,
                     environment=environment,
